@@ -85,3 +85,17 @@ contract('nfc.tag.tt3:Type3Tag.read_from_ndef_service', 'C16',
 contract('nfc.tag.tt3:Type3Tag.write_to_ndef_service', 'C16',
          dict(self=T3(), data=Bytes(16, 16, mutable=True), blocks=Fixed([Int(0, 0xFFFF)])),
          name='C16/tt3.write_to_ndef_service', raises={T3E: []})
+# the largest block lists the NDEF reader/writer ever pass (15 blocks per READ, 12 per WRITE: what one frame
+# carries, see C08/C01) still make well-formed commands: nothing but the command error escapes, the data returned
+# has one block per requested block.  Two instances each: all block numbers in the 2-octet element form (<= 255)
+# and all in the 3-octet form; mixed lists give command lengths in between.
+for _prop in ('C16', 'C08'):
+    for _form, _rng in (('short', Int(0, 255)), ('long', Int(256, 0xFFFF))):
+        contract('nfc.tag.tt3:Type3Tag.read_from_ndef_service', _prop,
+                 dict(self=T3(), blocks=Fixed([_rng] * 15)), name='%s/tt3.read_from_ndef_service[15,%s]' % (_prop, _form),
+                 call='varargs', ensures=[('post.size', 'result is None or len(result) == 16 * 15')],
+                 raises={T3E: []})
+for _form, _rng in (('short', Int(0, 255)), ('long', Int(256, 0xFFFF))):
+    contract('nfc.tag.tt3:Type3Tag.write_to_ndef_service', 'C16',
+             dict(self=T3(), data=Bytes(16 * 12, 16 * 12, mutable=True), blocks=Fixed([_rng] * 12)),
+             name='C16/tt3.write_to_ndef_service[12,%s]' % _form, call='varargs', raises={T3E: []})
